@@ -4,7 +4,7 @@
    also what is extracted and run against the real C++. *)
 From Coq Require Import ZArith List Bool.
 From MomoCommon Require Import GenPrelude.
-From C17 Require Gen_Leaves Leaves_Proofs SorterSearch SorterSort Search_Proofs Find_Proofs IsSorted_Proofs Sort_Proofs Radix_Proofs CodeGetter Checker Instance.
+From C17 Require Gen_Leaves Leaves_Proofs SorterSearch SorterSort Search_Proofs Find_Proofs IsSorted_Proofs Sort_Proofs Radix_Proofs CodeGetter Checker Instance SelPrims Gen_SelSort SelSort_Proofs SelSort_Refine.
 Import ListNotations.
 Local Open Scope Z_scope.
 
@@ -188,3 +188,32 @@ Theorem C17_radix_sort_signed_values_sorted : forall R W vs, 1 <= R -> 1 <= W ->
     (forall a b, 0 <= a -> a <= b -> b < SorterSort.alen l' -> SorterSort.itm l' a <= SorterSort.itm l' b).
 Proof. exact CodeGetter.RadixSort_signed_values_sorted. Qed.
 Print Assumptions C17_radix_sort_signed_values_sorted.
+
+(* About the GENERATED RadixSorter<8>::pvSelectionSort (Gen_SelSort.v, regenerated from RadixSorter.h on every run; codes =
+   the local std::array cache, items = code of the item now at each position, (gpos,gcnt,gnum) = log of groupFunc calls):
+   for 0 < count <= 32 (the size of the cache) it terminates without assertion, the cache is COHERENT with the items after
+   the selection loop (every iterSwapper call is mirrored on the cache), the item codes end up non-decreasing, and the
+   groupFunc calls are exactly the maximal runs of equal codes: consecutive from position 0, non-empty, constant code
+   inside, different codes for adjacent calls, ending at count.  (A stale cache -- e.g. `codes[minIndex] = codes[i]`
+   instead of the swap -- makes this proof fail.) *)
+Theorem C17_gen_selection_sort_cache_coherent : forall begin count, 0 < count <= 32 -> forall codes items gpos gcnt,
+  exists codes' items' gpos' gcnt' gnum',
+    Gen_SelSort.pvSelectionSort codes items gpos gcnt 0 begin count = Ok (tt, codes', items', gpos', gcnt', gnum') /\
+    SelSort_Proofs.coherent count codes' items' /\ SelSort_Proofs.sorted_upto items' count /\ 0 < gnum' /\
+    SelSort_Proofs.log_ok items' gpos' gcnt' 0 gnum' /\ gpos' (gnum' - 1) + gcnt' (gnum' - 1) = count.
+Proof. exact SelSort_Proofs.gen_selection_sort_spec. Qed.
+Print Assumptions C17_gen_selection_sort_cache_coherent.
+
+(* Refinement: started on the same array (items k = code of l at p+k, cache coherent), the GENERATED selection loop with its
+   explicit cache and the hand model's sel_loop (which reads the codes from the array) stay in lockstep: both succeed and
+   end with the same arrangement of codes.  This justifies the hand model's simplification by a theorem about the real code. *)
+Theorem C17_generated_selection_loop_refines_model : forall sw, (forall l i j, sw l i j = SorterSort.swap l i j) ->
+  forall begin p cnt, 0 <= p -> 0 < cnt <= 32 ->
+  forall n fuel i l codes items, 0 <= i -> i + Z.of_nat n = cnt - 1 -> (n < fuel)%nat -> p + cnt <= SorterSort.alen l ->
+    SelSort_Proofs.coherent cnt codes items -> SelSort_Refine.same_codes p cnt l items ->
+    exists l' codes' i' items',
+      SorterSort.sel_loop sw n p cnt i l = Ok l' /\
+      Gen_SelSort.pvSelectionSort_loop1 fuel begin cnt codes i items = Ok (codes', i', items') /\
+      SelSort_Refine.same_codes p cnt l' items' /\ SorterSort.alen l' = SorterSort.alen l.
+Proof. exact SelSort_Refine.sel_loops_agree. Qed.
+Print Assumptions C17_generated_selection_loop_refines_model.
